@@ -472,6 +472,22 @@ def f_mem_shared_values(deltas=(0, 1, 31, 32), tail=(None, "MLOAD", "KECCAK256")
     return list(dict.fromkeys(out))
 
 
+def f_mem_repeated_store(deltas=(0, 1, 31, 32)):
+    """store, something in between, the same store again (same place, same value): the second one is dead only if
+    nothing in between writes or reads those bytes"""
+    atoms = [a for _, a in _addr_atoms(list(deltas))]
+    out = []
+    for st, mids, tail in (("MSTORE", ("MSTORE8", "MSTORE", "MLOAD", "KECCAK256"), "MLOAD"), ("MSTORE8", ("MSTORE", "MSTORE8", "MLOAD"), "MLOAD"),
+                           ("SSTORE", ("SSTORE", "SLOAD"), "SLOAD")):
+        for a in atoms:
+            for mid in mids:
+                for am in atoms:
+                    seq = [(st, a, 0), (mid, am, 1), (st, a, 0)]
+                    out.append(compile_mem_sequence(seq))
+                    out.append(compile_mem_sequence(seq + [(tail, a, 0)]))
+    return list(dict.fromkeys(out))
+
+
 def f_mem_byte_in_word(deltas=(0, 1, 31, 32)):
     """a word access, then a byte store, then a word load: the byte may fall on any position of either word"""
     atoms = [a for _, a in _addr_atoms(list(deltas))]
